@@ -42,6 +42,8 @@ def build_registry():
     from contracts import method_frame_c, props_c
     method_frame_c.register(reg)
     props_c.register(reg)
+    from contracts import header_c
+    header_c.register(reg)
     return reg
 
 
@@ -168,7 +170,37 @@ def _c09():
             + mf.names('unmarshal_method_frame'))
 
 
+BPN = 'pamqp.base.BasicProperties.'
+CHN = 'pamqp.header.ContentHeader.'
+HEADER_CONE = [BPN + 'marshal', BPN + 'unmarshal', BPN + 'validate', 'pamqp.commands.Basic.Properties.__init__',
+               CHN + '__init__', CHN + 'marshal', CHN + '_get_flags', CHN + 'unmarshal',
+               FRM + '_marshal_content_header_frame', FRM + 'marshal[ContentHeader]', FRM + '_unmarshal_header_frame',
+               FRM + 'unmarshal(g)[ContentHeader]']
+
+
+def _c02():
+    return (HEADER_CONE + [ENC + n for n in ('short_string', '_string', 'octet')]
+            + [DEC + n for n in ('short_str', 'octet', 'short_uint')]
+            + [FRM + '_marshal', (FRM + 'unmarshal', {'content-header'})])
+
+
+def _c08():
+    class_c, mapping_c, mf = _names()
+    return (DEC_PRIM + [CHN + '_get_flags', BPN + 'unmarshal', CHN + 'unmarshal', FRM + '_unmarshal_header_frame',
+                        FRM + 'frame_parts', FRM + 'unmarshal', FRM + 'unmarshal(env)']
+            + [(n, {'anything-else', 'grammar-valid-arguments'}) for n in class_c.names('unmarshal')]
+            + mf.names('unmarshal_method_frame'))
+
+
 PROPS = {
+    'C02': PropSpec('C02', contracts=_c02(), lemmas=[L + 'c02_roundtrip', L + 'c02_reencode'], floor=2000,
+                    assumptions=['header tables: dec_table(enc_table(d)) == norm_value(d) and enc_table(norm_value(d)) == enc_table(d) (decided in the C03 cone)',
+                                 'timestamps: dt_seconds / dt_of_seconds are the whole-second UTC reading (encode.timestamp and decode.timestamp enter through assumed contracts; C15)',
+                                 'content headers with three or more flag words are outside the grammar clause (no properties are defined there)']),
+    'C08': PropSpec('C08', contracts=_c08(), floor=2000,
+                    assumptions=['I6: a decoding step is one loop iteration or one call of a decode/unmarshal function; '
+                                 'wall-clock time and resident memory are not objects a contract can mention',
+                                 'loops over the concrete argument / property lists terminate by construction (unrolled or cut)']),
     'C19': PropSpec('C19', contracts=_c19(), floor=1000),
     'C13': PropSpec('C13', contracts=_c13(), ground=['C13.name-character-class'], floor=800,
                     assumptions=['I5: typed domains; None in a validated field is outside the domain (validation skips None by design)']),
